@@ -182,12 +182,13 @@ TaskMaxFut(W, t) ==
 -----------------------------------------------------------------------------
 (* Internal queues (C05): a task belongs to the last queue that lists it,   *)
 (* else to "default".                                                       *)
+DefaultQueueLimit == 100     \* [scheduling][queues][default]limit
 QueueOf(W, t) ==
   LET idx == {i \in DOMAIN W.queues : t \in W.queues[i].members}
   IN IF idx = {} THEN "default" ELSE W.queues[Max(idx)].name
 QueueLimit(W, q) ==
   LET idx == {i \in DOMAIN W.queues : W.queues[i].name = q}
-  IN IF idx = {} THEN 0 ELSE W.queues[Max(idx)].limit
+  IN IF idx = {} THEN DefaultQueueLimit ELSE W.queues[Max(idx)].limit
 
 -----------------------------------------------------------------------------
 (* Lifecycle (C09): allowed non-forced status changes without intervention *)
